@@ -124,6 +124,13 @@ def run(tier, seed, replay=None):
                  ("V", 73, 0, T.gen_ground(rng, L, tab, [t for t in L.builtin_terms(prims=False) if not L.info[t[1]]["bottom"]], 1))]
         if gens:
             vars_ += list(tab[rng.choice(gens)][0])
+        gens1 = [g for g in gens if len(tab[g][0]) == 1]
+        if gens1:
+            # a variable whose bound mentions another pattern variable:  X74 : G<X71>
+            vars_.append(("V", 74, 0, ("A", rng.choice(gens1), [vars_[0]])))
+        nums = [t for t in L.builtin_terms(prims=False) if L.info[t[1]]["name"] == "NumberType"]
+        if nums:
+            vars_.append(("V", 75, 0, nums[0]))          # X75 : Number (primitive arguments are assignable, not subtypes)
         for _ in range(30):
             pat = gen_pattern(rng, L, tab, vars_, rng.choice([1, 2, 2, 3]))
             r = rng.random()
@@ -148,6 +155,25 @@ def run(tier, seed, replay=None):
             else:
                 tgt = T.gen_type(rng, L, tab, 2, vars_)
                 kind = "unrelated"
+            r3 = rng.random()
+            if r3 < 0.12 and gens:
+                # supertype-matching mode with a NESTED generic argument that is a proper subclass instance
+                pairs = [(b_, s_[1]) for b_ in tab for s_ in tab[b_][1] if s_[0] == "A" and tab[b_][0]]
+                if pairs:
+                    sub, sup = rng.choice(pairs)
+                    k = rng.choice(gens)
+                    inner_p = ("A", sup, [rng.choice(vars_[:3]) for _ in tab[sup][0]])
+                    inner_t = ("A", sub, [T.gen_ground(rng, L, tab, L.builtin_terms(prims=False)[:6], 0) for _ in tab[sub][0]])
+                    pat = ("A", k, [inner_p] + [rng.choice(vars_[:3]) for _ in tab[k][0][1:]])
+                    tgt = ("A", k, [inner_t] + [T.gen_ground(rng, L, tab, L.builtin_terms(prims=False)[:6], 0) for _ in tab[k][0][1:]])
+                    same = rng.random() < 0.3
+                    kind = "subclass"
+            elif r3 < 0.2 and L.lang in ("java", "groovy"):
+                # primitive array element against a bounded variable
+                prims = [t for t in L.builtin_terms(prims=True) if t[2]]
+                pat = ("A", T.ARRAY_CID, [rng.choice([v for v in vars_ if v[3] is not None] or vars_)])
+                tgt = ("A", T.ARRAY_CID, [rng.choice(prims)])
+                kind = "instance"
             if T.nested_nothing(tgt) or T.nested_nothing(pat):
                 continue
             try:
